@@ -49,7 +49,7 @@ def run(ctx):
     ctx.extra["sources_differing_from_head_at_build"] = dirty
     steps_f, free_f, race_f = ctx.path("steps.ndjson"), ctx.path("free.ndjson"), ctx.path("race.ndjson")
     ctx.harness(binary, ["-plans", pdir, "-out", steps_f, "-free", free_f, "-seed", ctx.seed,
-                         "-rand", ctx.q(60, 1500), "-nfree", ctx.q(40, 500), "-nbulk", ctx.q(4, 24),
+                         "-rand", ctx.q(60, 1500), "-nfree", ctx.q(40, 500), "-nbulk", ctx.q(6, 30),
                          "-race", race_f, "-nrace", ctx.q(12000, 100000),
                          "-empty=%s" % ("true" if EMPTY_SENDS else "false")],
                 traces=[steps_f, race_f, free_f])
@@ -100,7 +100,15 @@ def run(ctx):
              "in Write, ended by ONE event that fails both calls at once (reset / peer close / both deadlines; one "
              "channel both wait on, in half of them a spin barrier before they return), no driver step between the "
              "two exits; per session OnExit calls and closed, per batch count before / while alive / after and "
-             "goroutines left, in one compact event.  Audit additions: handlers "
+             "goroutines left, in one compact event.  Long runs in one run-length-encoded event each: 255 / 256 / 257 and 65535 / 65536 / 65537 "
+             "one-byte Sends to one session (half queued before Start) then Close with a reading peer; 127..129 and "
+             "255..257 (thorough also 32767..32769, 65536) sessions alive at once on one manager.  Audit 2: Send(nil), "
+             "the same slice sent twice, slices overwritten by the caller once everything was delivered, zero-length "
+             "Session.Read, no manager handler at all when sessions bring their own, Session.Set with eleven dynamic "
+             "kinds (incl. a typed-nil IKeyZap that panics inside the log call) under a logger that renders every "
+             "statement, every exported error of io / net / os / the send queue plain and wrapped out of Read, Write "
+             "and the handler, bulk payloads of k*4096 / 65536 / 1024 +- 1 bytes, the same Server object restarted with "
+             "another limit while sessions carry over (reconf event).  Audit additions: handlers "
              "that call Send / Close from inside Read and from inside OnExit (recorded by the handler, call + "
              "record serialized with the driver's), temporary-but-not-timeout errors, all sessions of a fresh "
              "manager started at the same moment, option extremes (timeouts negative / 0 / 1 ms / 2^30 ms on "
